@@ -30,8 +30,8 @@
 (* The footprints are NOT assumed: the driver (tools/fam_conc.py) records them   *)
 (* from the real code (harness/conc.cpp --phase fp: byte snapshots of every      *)
 (* shared const input and of the executable's static storage around single       *)
-(* calls, guard symbols from the binary) and passes them as JSON (FpEnv below,   *)
-(* ConstOps_env2.cfg / ConstOps_env3.cfg).  The fixed scenarios at the end of    *)
+(* calls, guard symbols from the binary) and passes them as a generated module     *)
+(* ConstOpsEnv_<n> (EXTENDS ConstOps, FpRecorded).  The fixed scenarios at the end of    *)
 (* the module are the design-level cases and the seeded specification mutants    *)
 (* (ConstOps.cfg, ConstOps_*.cfg): a shared scratch cell, an unguarded lazy      *)
 (* table and a history-dependent cache MUST be rejected, thread-private scratch, *)
@@ -40,7 +40,7 @@
 (* A counterexample is a schedule: the driver reads the thread that moved in     *)
 (* every step off the dumped trace (i, ph, pc per thread) and the harness        *)
 (* replays it on the real object (harness/conc.cpp --phase sched).               *)
-EXTENDS Integers, Sequences, FiniteSets, TLC, Json, IOUtils
+EXTENDS Integers, Sequences, FiniteSets, TLC
 
 CONSTANTS NThreads,     \* number of threads (2..3)
           NInst,        \* instances per thread
@@ -238,9 +238,8 @@ TypeOK == /\ \A t \in Threads : k[t] \in 1..(NInst + 1) /\ f[t] \in 1..Len(Footp
 Finishes == <>(\A t \in Threads : pc[t] = "Done")
 
 -----------------------------------------------------------------------------
-(* Footprints recorded from the real code (written by tools/fam_conc.py) *)
-FpEnv == JsonDeserialize(IOEnv.FOOTPRINTS)
-EnvThreads == atoi(IOEnv.NTHREADS)
+(* Footprints recorded from the real code: tools/fam_conc.py writes a module ConstOpsEnv_<n> that EXTENDS this one  *)
+(* and defines FpRecorded (substituted for Footprints), checked with 2 and 3 threads x 2 instances.                *)
 
 (* Design-level scenarios / seeded specification mutants *)
 St(kind, loc) == [k |-> kind, loc |-> loc]
